@@ -171,6 +171,10 @@ pub fn sink_steps(j: &J) -> Result<Vec<SinkStep>, String> {
 				"interrupted" => SinkStep::Interrupted,
 				"zero" => SinkStep::Zero,
 				"error" => SinkStep::Error,
+				"would_block" => SinkStep::ErrorKind(std::io::ErrorKind::WouldBlock),
+				"timed_out" => SinkStep::ErrorKind(std::io::ErrorKind::TimedOut),
+				"broken_pipe" => SinkStep::ErrorKind(std::io::ErrorKind::BrokenPipe),
+				"unexpected_eof" => SinkStep::ErrorKind(std::io::ErrorKind::UnexpectedEof),
 				"first_slice" => SinkStep::AcceptFirstSlice,
 				other => return Err(format!("unknown sink step {other}")),
 			},
